@@ -34,7 +34,7 @@ m = {
     "hooks": {
         "guard": "verif",
         "enable": "go build -tags verif (harness module in /verif/harness replaces github.com/aperturerobotics/bifrost => /repo)",
-        "baseline_off_cmd": "cd /repo && go test -mod=mod -vet=off -count=1 -timeout 25m ./...",
+        "baseline_off_cmd": "cd /repo && go test -mod=mod -json -vet=off -count=1 -timeout 25m ./...",
         "source_commits": hooks.get("source_commits", []),
         "add_only": True,
     },
